@@ -177,6 +177,12 @@ def gen_time(rng, tier, ops):
     for t in (253402300799, 253402300799 - 14 * 3600, 253402300799 - 14 * 3600 + 1, 253402300799 - 7 * 3600, 1000000000):
         for dmax in (26, 27, 64, 119, 120, 200):
             ops.append(mk_time("ctime_s", dmax, timer=t, prior=[0x51] * dmax, tz=14, tag="tz+14"))
+    # the same second converted again right after the zone changed (a cached last conversion must not survive tzset)
+    for t in (1000000000, 86399, 4102444800):
+        for dmax in (26, 64, 128):
+            ops.append(mk_time("ctime_s", dmax, timer=t, prior=[0x51] * dmax, tag="zone-change"))
+            ops.append(mk_time("ctime_s", dmax, timer=t, prior=[0x51] * dmax, tz=14, tag="zone-change"))
+            ops.append(mk_time("ctime_s", dmax, timer=t, prior=[0x51] * dmax, tag="zone-change"))
     for t in (0, 1, 59, 86399, 86400, 951782400, 2147483647, 2147483648, 4102444800, 253402300799, 253402300800, 313360441199, 313360441200,
               1 << 40, -1, -(1 << 62), (1 << 63) - 1):
         for dmax in (26, 64, 128):
